@@ -402,7 +402,8 @@ class SymdelDB:
 
 
     def __init__(self, seqs, max_edits):
-        self.seqs = seqs
+        # positional access below: a pandas Series would be indexed by label
+        self.seqs = ensure_numpy(seqs)
         self.max_edits = max_edits
         self.variant_dict = {}
         for i, seq in enumerate(seqs):
@@ -462,7 +463,7 @@ class SymdelDB:
                 for j in self.variant_dict[comb]:
                     j_indices.add(j)
             for j in j_indices:
-                dist = custom_distance(seqs2[i], self.seqs[j])
+                dist = custom_distance(seq, self.seqs[j])
                 if dist > threshold:
                     continue
                 ans.append((i, j, dist))
@@ -543,7 +544,7 @@ def symdel(seqs, max_edits=1, max_returns=None, n_cpu=1,
             if len(values) == 1:
                 continue
             for i, j in combinations(values, 2):
-                dist = custom_distance(seqs[i], seqs[j])
+                dist = custom_distance(symdeldb.seqs[i], symdeldb.seqs[j])
                 if dist > threshold:
                     continue
                 ans.add((i, j, dist))
